@@ -128,6 +128,11 @@ func (s *Sched) WaitParked(point string, d time.Duration) bool {
 	return s.waitCond(d, func() bool { return len(s.parked[point]) > 0 })
 }
 
+// WaitParkedN waits until at least n goroutines are parked at point.
+func (s *Sched) WaitParkedN(point string, n int, d time.Duration) bool {
+	return s.waitCond(d, func() bool { return len(s.parked[point]) >= n })
+}
+
 // WaitParkedAny waits until a goroutine is parked at one of the points and returns it.
 func (s *Sched) WaitParkedAny(d time.Duration, points ...string) string {
 	var got string
